@@ -101,6 +101,30 @@ fn check_sink(out: &mut Out, v: &Value, po: Po, cap: usize, limit: Option<usize>
     }
 }
 
+/// A sink with a native gathering write: it takes bytes from the buffers in order up
+/// to a per-call budget, so it may stop in the middle of any buffer, not just the first.
+pub struct GatherSink { pub budget: usize, pub data: Vec<u8> }
+impl Write for GatherSink {
+    fn write(&mut self, buf: &[u8]) -> io::Result<usize> {
+        let n = buf.len().min(self.budget.max(1));
+        self.data.extend_from_slice(&buf[..n]);
+        Ok(n)
+    }
+    fn write_vectored(&mut self, bufs: &[io::IoSlice<'_>]) -> io::Result<usize> {
+        let mut left = self.budget.max(1);
+        let mut n = 0;
+        for b in bufs {
+            if left == 0 { break; }
+            let k = b.len().min(left);
+            self.data.extend_from_slice(&b[..k]);
+            left -= k;
+            n += k;
+        }
+        Ok(n)
+    }
+    fn flush(&mut self) -> io::Result<()> { Ok(()) }
+}
+
 pub fn run_value(out: &mut Out, r: &mut Rng, v: &Value, po: Po, every_offset: bool) {
     walk(v, &mut |x| out.count(&format!("kind:{}", kind_name(x))));
     out.count(&format!("po:{}", po.code()));
@@ -150,6 +174,25 @@ pub fn run_value(out: &mut Out, r: &mut Rng, v: &Value, po: Po, every_offset: bo
                 out.fail("sink", format!("default printer through a sink accepting {} byte(s) per call lost or changed output", cap), case.clone(), json!({"delivered": hex(&sink.data), "expected_text": hex(&expected)}));
             }
             out.case(case, format!("{} {}", res_name(&rr), hex(&sink.data)), expected.len() > 2);
+        }
+    }
+    // a sink whose gathering write stops anywhere
+    for budget in [1usize, 2, 3, 4, 5, 7, 16] {
+        let mut sink = GatherSink { budget, data: vec![] };
+        let rr = lexpr::to_writer_custom(&mut sink, v, po.options());
+        out.oracle_checks += 1;
+        if res_name(&rr) != "ok" || sink.data != expected {
+            out.fail("sink-gather", format!("a sink with a gathering write taking {} byte(s) per call received other bytes than the text (result {})", budget, res_name(&rr)),
+                     format!("printc {} {}", po.code(), enc_case_value(v)), json!({"delivered": hex(&sink.data), "expected_text": hex(&expected), "budget": budget}));
+        }
+        if po == Po::DEFAULT {
+            let mut sink = GatherSink { budget, data: vec![] };
+            let rr = lexpr::to_writer(&mut sink, v);
+            out.oracle_checks += 1;
+            if res_name(&rr) != "ok" || sink.data != expected {
+                out.fail("sink-gather", format!("the default printer through a sink with a gathering write taking {} byte(s) per call delivered other bytes than the text", budget),
+                         format!("print0 {}", enc_case_value(v)), json!({"delivered": hex(&sink.data), "expected_text": hex(&expected), "budget": budget}));
+            }
         }
     }
     // short writes
